@@ -1,4 +1,5 @@
 import CnbVerif.Base.CnbData
+import CnbVerif.Base.Proto
 /-!
 Model of libcnb-data's builders, in the code's own order (C07):
 `BuildPlanBuilder` (build_plan.rs: `VecDeque` accumulation, `or()` called once more inside `build()`),
@@ -162,6 +163,73 @@ def launchStepX (l : Launch) : LaunchOpX → Launch
 `Launch` built, in order -/
 def launchSession (ops : List (SeqOp LaunchOpX)) : List Launch :=
   runSeq launchStepX (fun l => l) ⟨[], [], []⟩ (ops ++ [.build])
+
+/-! ## Layers through the public layer APIs: which file of the layers directory holds which document
+
+`libcnb/src/layer/shared.rs`: every reader and writer of a layer's content metadata derives the file from the layer name as
+`layers_dir.join(format!("{layer_name}.toml"))` (`read_layer`, `write_layer`, `replace_layer_metadata`, `replace_layer_types`,
+`delete_layer`). The layers directory, as far as C07 looks at it, is the list of (file name in bytes, document), the entry written
+last first. -/
+
+abbrev LayersDir := List (Bytes × LayerMeta)
+
+/-- `format!("{layer_name}.toml")`: the name's bytes followed by `.toml` -/
+def layerFilePath (name : Bytes) : Bytes := name ++ [46, 116, 111, 109, 108]
+
+/-- reading the file `p` -/
+def dirGet : LayersDir → Bytes → Option LayerMeta
+  | [], _ => none
+  | (q, m) :: rest, p => if q = p then some m else dirGet rest p
+
+/-- `write_toml_file(value, p)` -/
+def dirPut (d : LayersDir) (p : Bytes) (m : LayerMeta) : LayersDir := (p, m) :: d
+
+/-- a layer constructed through the public API: `cached_layer` (restored layer kept) / `uncached_layer`, followed by
+`LayerRef::write_metadata(table)` when a table is given; trait API `handle_layer` whose `create` / `update` return `md` -/
+inductive LayerCall where
+  | cached (name : Bytes) (launch build : Bool) (md : Option Table)
+  | uncached (name : Bytes) (launch build : Bool) (md : Option Table)
+  | handle (name : Bytes) (types : LayerTypes) (md : Option Table)
+deriving Repr, Inhabited
+
+/-- `struct_api::handling::handle_layer`: `read_layer`; no layer: `create_layer` = `write_layer` with the types and no metadata;
+a layer and the action is keep: `replace_layer_types` (read the file, set the types, write it); delete: `delete_layer`, `create_layer` -/
+def structHandle (d : LayersDir) (name : Bytes) (types : LayerTypes) (keep : Bool) : LayersDir :=
+  match dirGet d (layerFilePath name) with
+  | none => dirPut d (layerFilePath name) ⟨some types, none⟩
+  | some cur => if keep then dirPut d (layerFilePath name) ⟨some types, cur.mdata⟩ else dirPut d (layerFilePath name) ⟨some types, none⟩
+
+/-- `LayerRef::write_metadata` = `replace_layer_metadata`: read the file, keep its types, write the given metadata -/
+def writeMetadata (d : LayersDir) (name : Bytes) (t : Table) : LayersDir :=
+  match dirGet d (layerFilePath name) with
+  | some cur => dirPut d (layerFilePath name) ⟨cur.types, some t⟩
+  | none => d
+
+def thenMetadata (d : LayersDir) (name : Bytes) : Option Table → LayersDir
+  | some t => writeMetadata d name t
+  | none => d
+
+def layerStep (d : LayersDir) : LayerCall → LayersDir
+  | .cached n l b md => thenMetadata (structHandle d n ⟨l, b, true⟩ true) n md
+  | .uncached n l b md => thenMetadata (structHandle d n ⟨l, b, false⟩ false) n md
+  -- trait API: `handle_create_layer` / `handle_update_layer` end in `write_layer(types(), returned metadata)`
+  | .handle n ty md => dirPut d (layerFilePath n) ⟨some ty, md⟩
+
+/-- the layers directory after the calls, starting empty -/
+def layerSession (calls : List LayerCall) : LayersDir := calls.foldl layerStep []
+
+/-- the document found at `<layers>/<name>.toml` after the calls -/
+def layerFileAfter (calls : List LayerCall) (name : Bytes) : Option LayerMeta := dirGet (layerSession calls) (layerFilePath name)
+
+def LayerCall.name : LayerCall → Bytes
+  | .cached n _ _ _ => n
+  | .uncached n _ _ _ => n
+  | .handle n _ _ => n
+
+/-- names in order of first use -/
+def firstUses : List Bytes → List Bytes
+  | [] => []
+  | n :: rest => n :: (firstUses rest).filter (fun m => m ≠ n)
 
 /-! ## ExecDProgramOutput: pairs collected into a map — a later pair with the same key replaces the earlier one -/
 
